@@ -633,8 +633,9 @@ def _flag_vs_timeout(cx, fn, operand):
 
 def rule_catch_restore(cx, tier):
     r = RuleResult("R-CATCH-RESTORE", "resuming at a catch handler restores the sequence/string builder stacks "
-                                      "to their depth at try entry: every path from the catch outcome of the unwinder "
-                                      "to set_ip() shrinks both stacks, and TryStart records both depths")
+                                      "to their depth at try entry and the value stack to the frame's register window: "
+                                      "every path from the catch outcome of the unwinder to set_ip() shrinks both builder "
+                                      "stacks and resizes self.registers; TryStart records both builder depths")
     fn = cx.need_fn(VM + "execute_instructions")
     cfg = cx.cfg(fn)
     SHRINK = ("Vec::truncate", "Vec::drain", "Vec::split_off", "Vec::clear")
@@ -642,12 +643,14 @@ def rule_catch_restore(cx, tier):
     setips = {c.bb for c in fn.calls() if c.short == VM + "set_ip"}
     require(unw, "R-CATCH-RESTORE: no call of pop_call_stack_on_error in execute_instructions")
     require(setips, "R-CATCH-RESTORE: no call of set_ip in execute_instructions (catch resumption not found)")
-    shr = {"sequence_builders": set(), "string_builders": set()}
+    shr = {"sequence_builders": set(), "string_builders": set(), "registers": set()}
     for c in fn.calls():
         if c.is_(*SHRINK):
-            for fld in shr:
+            for fld in ("sequence_builders", "string_builders"):
                 if _receiver_is_self_field(cx, fn, c, fld):
                     shr[fld].add(c.bb)
+        if c.is_("Vec::resize", "Vec::resize_with") and _receiver_is_self_field(cx, fn, c, "registers"):
+            shr["registers"].add(c.bb)
     r.analysed = {"unwinder_calls": len(unw), "set_ip_sites": len(setips),
                   "shrink_sites": {k: len(v) for k, v in shr.items()}}
     for c in unw:
@@ -676,22 +679,29 @@ def rule_catch_restore(cx, tier):
                 if p is not None:
                     bad = p
             r.sample({"field": fld, "unwinder_call_line": c.line, "restored_before_set_ip": bad is None})
-            if bad is not None:
+            if bad is not None and fld == "registers":
+                r.add(Finding("R-CATCH-RESTORE", fn.qual, fld,
+                              "execution can resume at a catch handler without resizing self.registers to the frame's "
+                              "window: the failed instruction may have truncated the value stack (call_koto_function "
+                              "truncates before it checks the arguments) or left temporaries behind, and the handler's "
+                              "first register write indexes past the stack", fn.file, c.line,
+                              [f"bb{b} {fn.file}:{line_of(fn, b)}" for b in bad]))
+            elif bad is not None:
                 r.add(Finding("R-CATCH-RESTORE", fn.qual, fld,
                               f"execution can resume at a catch handler without shrinking self.{fld}: an error thrown "
                               f"while a {'list/tuple' if fld == 'sequence_builders' else 'string'} is under construction "
                               f"and caught leaves its builder behind", fn.file, c.line,
                               [f"bb{b} {fn.file}:{line_of(fn, b)}" for b in bad]))
-    require(r.instances >= 2, "R-CATCH-RESTORE: catch resumption path (Ok outcome -> set_ip) not found")
+    require(r.instances >= 3, "R-CATCH-RESTORE: catch resumption path (Ok outcome -> set_ip) not found")
     # TryStart records both depths: the function that pushes onto catch_stack reads both lengths
     ex = cx.need_fn(VM + "execute_instruction")
     lens = set()
     for c in ex.calls():
         if c.is_("Vec::len"):
-            for fld in shr:
+            for fld in ("sequence_builders", "string_builders"):
                 if _receiver_is_self_field(cx, ex, c, fld):
                     lens.add(fld)
-    for fld in shr:
+    for fld in ("sequence_builders", "string_builders"):
         r.instances += 1
         r.nontrivial += 1
         if fld not in lens:
